@@ -803,6 +803,35 @@ def shrink_body(body, attempt):
     return body
 
 
+def _mod_paths(sheet, path=()):
+    out = [path]
+    for i, imp in enumerate(sheet.get("imports", [])):
+        out += _mod_paths(imp, path + (("imp", i),))
+    for j, t in enumerate(sheet["tops"]):
+        if t[0] == "include":
+            out += _mod_paths(t[1], path + (("inc", j),))
+    return out
+
+
+def _get_mod(sheet, path):
+    for k, i in path:
+        sheet = sheet["imports"][i] if k == "imp" else sheet["tops"][i][1]
+    return sheet
+
+
+def _set_mod(sheet, path, new):
+    if not path:
+        return new
+    (k, i), rest = path[0], path[1:]
+    if k == "imp":
+        imps = list(sheet["imports"])
+        imps[i] = _set_mod(imps[i], rest, new)
+        return dict(sheet, imports=imps)
+    tops = list(sheet["tops"])
+    tops[i] = ("include", _set_mod(tops[i][1], rest, new))
+    return dict(sheet, tops=tops)
+
+
 def shrink(sheet, doc, fails, max_steps=400):
     import copy
     steps = [0]
@@ -816,30 +845,49 @@ def shrink(sheet, doc, fails, max_steps=400):
         except Exception:
             return False
     sheet = copy.deepcopy(sheet)
-    # 1. imports and top-level items
+    # 1. imports / includes / top-level items of every module (outermost first)
     changed = True
     while changed and steps[0] < max_steps:
         changed = False
-        for i in range(len(sheet["imports"]) - 1, -1, -1):
-            cand = dict(sheet, imports=sheet["imports"][:i] + sheet["imports"][i + 1:])
-            if ok(cand, doc):
-                sheet, changed = cand, True
-        for i in range(len(sheet["tops"]) - 1, -1, -1):
-            cand = dict(sheet, tops=sheet["tops"][:i] + sheet["tops"][i + 1:])
-            if ok(cand, doc):
-                sheet, changed = cand, True
-    # 2. template bodies
-    for ti in range(len(sheet["tops"])):
-        t = sheet["tops"][ti]
-        if t[0] != "template":
-            continue
+        for path in _mod_paths(sheet):
+            try:
+                mod = _get_mod(sheet, path)
+            except (IndexError, KeyError, TypeError):
+                continue
+            for i in range(len(mod.get("imports", [])) - 1, -1, -1):
+                mod = _get_mod(sheet, path)
+                cand = _set_mod(sheet, path, dict(mod, imports=mod["imports"][:i] + mod["imports"][i + 1:]))
+                if ok(cand, doc):
+                    sheet, changed = cand, True
+            for i in range(len(_get_mod(sheet, path)["tops"]) - 1, -1, -1):
+                mod = _get_mod(sheet, path)
+                cand = _set_mod(sheet, path, dict(mod, tops=mod["tops"][:i] + mod["tops"][i + 1:]))
+                if ok(cand, doc):
+                    sheet, changed = cand, True
+            if changed:
+                break
+    # 2. template bodies and params of every module
+    for path in _mod_paths(sheet):
+        for ti in range(len(_get_mod(sheet, path)["tops"])):
+            t = _get_mod(sheet, path)["tops"][ti]
+            if t[0] != "template":
+                continue
 
-        def attempt(nb, ti=ti):
-            cur = sheet["tops"][ti]
-            d2 = dict(cur[1], body=nb)
-            return ok(dict(sheet, tops=sheet["tops"][:ti] + [("template", d2)] + sheet["tops"][ti + 1:]), doc)
-        nb = shrink_body(list(t[1].get("body", [])), attempt)
-        sheet = dict(sheet, tops=sheet["tops"][:ti] + [("template", dict(sheet["tops"][ti][1], body=nb))] + sheet["tops"][ti + 1:])
+            def put(d2, ti=ti, path=path):
+                mod = _get_mod(sheet, path)
+                return _set_mod(sheet, path, dict(mod, tops=mod["tops"][:ti] + [("template", d2)] + mod["tops"][ti + 1:]))
+
+            def attempt(nb, ti=ti, path=path):
+                cur = _get_mod(sheet, path)["tops"][ti]
+                return ok(put(dict(cur[1], body=nb)), doc)
+            nb = shrink_body(list(t[1].get("body", [])), attempt)
+            sheet = put(dict(_get_mod(sheet, path)["tops"][ti][1], body=nb))
+            cur = _get_mod(sheet, path)["tops"][ti][1]
+            for pi in range(len(cur.get("params", [])) - 1, -1, -1):
+                cur = _get_mod(sheet, path)["tops"][ti][1]
+                cand = put(dict(cur, params=cur["params"][:pi] + cur["params"][pi + 1:]))
+                if ok(cand, doc):
+                    sheet = cand
     # 3. document nodes
 
     def shrink_children(ch, rebuild):
